@@ -751,16 +751,15 @@ def run(ctx):
     # ---- quantile
     cases = []
     nmax = 4 if q else 5
-    alphas5 = sorted(set(_alphas(True)) | {'1/3', '2/3', '1/5', '1/6', '1/7', '1/9', '1/10', '1/11', '1/13', '1/15'},
-                     key=Fraction)
+    alphas5 = sorted(set(_alphas(True)) | {'1/3', '1/5', '1/7', '1/15'}, key=Fraction)
     for n in range(1, nmax + 1):
         xvals = range(3) if (q or n >= 5) else range(4)
         for x in itertools.product(xvals, repeat=n):
             c = {'kind': 'quantile', 'x': list(x), 'wmax': 3, 'alphas': alphas, 'scales': scales,
                  'dtypes': ['ff', 'ii', 'if'] if n <= 3 else ['ff']}
             if n >= 5:
-                c.update(scales=['2', '3'], alphas=alphas5)
-            elif q and n == 4:
+                c.update(scales=['3'], alphas=alphas5)
+            elif n == 4:
                 c['scales'] = ['2', '1/4', '3', '1/10']
             cases.append(c)
     ctx.count(quantile_alphabet_x=len(cases), quantile_alphabet_alpha=len(alphas))
